@@ -307,6 +307,14 @@ theorem store_owns_copy_step {s : State} (h : Reachable s) (m : Mut) :
     exact store_owns_copy h m hm
   · rfl
 
+open Heap in
+/-- the client of the model is as powerful as a real one: in every reachable state it holds the
+    data dict behind every event object and metadata dict it holds (so mutating that dict in
+    place, `Mut.setDict`, is a step it can take on everything it was ever handed) -/
+theorem client_holds_data {s : State} (h : Reachable s) {r d : Ref} (hr : s.client r = true)
+    (hd : dataRefOf s r = some d) : s.client d = true :=
+  (reachable_sep h).closed r hr d hd
+
 /-! ## the hypotheses are satisfiable (non-vacuity) -/
 
 /-- codec range hypotheses: an instant in 2023 with a sub-millisecond duration part; the 2^51 µs
